@@ -57,8 +57,35 @@ var c17Behaviours = []string{
 	bRefuse, bWriteFail,
 }
 
+// Composite behaviours "established/dial": the upstream went away — its
+// established connections end (EOF: closed gracefully; reset: RST) and it no
+// longer listens (new dials are refused).
+const (
+	bGoneEOF   = bEOF + "/" + bRefuse
+	bGoneReset = bReset + "/" + bRefuse
+)
+
+// c17BehAt resolves a composite behaviour for request nreq (-1: the dial).
+func c17BehAt(beh string, nreq int) string {
+	est, dial, ok := strings.Cut(beh, "/")
+	if !ok {
+		return beh
+	}
+	if nreq < 0 {
+		return dial
+	}
+
+	return est
+}
+
 func bAccept(b string) bool { return b == bMatch || b == bCaseName || b == bServfail }
-func bNetErr(b string) bool { return b == bSilent || b == bReset || b == bRefuse || b == bWriteFail }
+
+// bNetErr reports whether every attempt with behaviour b ends in a network
+// failure.  A gone upstream is one: whatever the pooled connection says, the
+// re-dial is refused.
+func bNetErr(b string) bool {
+	return b == bSilent || b == bReset || b == bRefuse || b == bWriteFail || b == bGoneEOF || b == bGoneReset
+}
 func bInvalid(b string) bool {
 	switch b {
 	case bWrongID, bWrongName, bWrongType, bTwoQ, bNoQ, bJunk, bShort:
@@ -92,6 +119,8 @@ type c17Srv struct {
 	holds []chan struct{}
 	// conns are all connections dialled, in order.
 	conns []*c17Conn
+	// refused[e] is set when a dial was refused during exchange e.
+	refused map[int]bool
 }
 
 func c17OpErr(op string, nw Network, errno syscall.Errno) error {
@@ -112,6 +141,11 @@ func (s *c17Srv) factory(nw Network) pool.Factory {
 		idx := s.nconn[nw]
 		s.nconn[nw]++
 		if s.beh(nw, idx, -1) == bRefuse {
+			if s.refused == nil {
+				s.refused = map[int]bool{}
+			}
+			s.refused[*s.exch] = true
+
 			return nil, c17OpErr("dial", nw, syscall.ECONNREFUSED)
 		}
 
@@ -489,7 +523,12 @@ func c17RunUpCase(r *vrt.Run, c c17UpCase) (fs []vrt.Finding) {
 		}
 		cls := "rejected"
 		var ne net.Error
-		_ = ne
+		if err != nil && srv.refused[e] && !errors.As(err, &ne) {
+			// The exchange ended with a refused dial (nothing follows one):
+			// the upstream does not listen any more.
+			return vrt.F("upstream/upstream-gone-non-network-error",
+				"%s: the last attempt of this exchange was a dial that the upstream refused — a network failure — but the error returned is not a network error, so the handler would not try a fallback", what)
+		}
 		switch {
 		case err == nil && resp.Truncated:
 			cls = "accepted-tc"
@@ -604,15 +643,15 @@ func c17RunE2ECase(r *vrt.Run, c c17E2ECase) (fs []vrt.Finding) {
 	exch := 0 // 0: probe phase, 1: query phase
 	msrv := &c17Srv{name: "m", nconn: map[Network]int{}, exch: &exch}
 	fsrv := &c17Srv{name: "f", nconn: map[Network]int{}, exch: &exch}
-	msrv.beh = func(nw Network, _, _ int) string {
+	msrv.beh = func(nw Network, _, nreq int) string {
 		if exch == 0 {
 			return c.Probe
 		}
 		if nw == NetworkTCP {
-			return c.MainTCP
+			return c17BehAt(c.MainTCP, nreq)
 		}
 
-		return c.MainUDP
+		return c17BehAt(c.MainUDP, nreq)
 	}
 	fsrv.beh = func(Network, int, int) string { return c.Fallback }
 
@@ -776,11 +815,14 @@ func c17RunE2ECase(r *vrt.Run, c c17E2ECase) (fs []vrt.Finding) {
 func c17GenE2ECases(r *vrt.Run, emit func(c17E2ECase)) {
 	all := append(append([]string{}, c17Behaviours...), bServfail)
 	probes := vrt.Pick(r, []string{"", bMatch, bWrongID, bSilent, bServfail, bTC}, append([]string{""}, all...))
+	// For the query the main upstream may also have gone away: connections
+	// pooled by a good probe end with EOF / RST and the re-dial is refused.
+	mainQ := append(append([]string{}, all...), bGoneEOF, bGoneReset)
 	fbs := vrt.Pick(r, []string{bMatch, bServfail, bWrongID, bSilent, bRefuse, bJunk, bTC, bEOF}, all)
 	for _, nw := range []string{string(NetworkAny), string(NetworkUDP), string(NetworkTCP)} {
 		for _, p := range probes {
-			for _, mu := range all {
-				for _, mt := range all {
+			for _, mu := range mainQ {
+				for _, mt := range mainQ {
 					for _, f := range fbs {
 						emit(c17E2ECase{MainNet: nw, MainUDP: mu, MainTCP: mt, Probe: p, Fallback: f})
 					}
